@@ -980,9 +980,9 @@ func main() {
 	eOpt := slotOpt{kind: 'E'}
 	// (a) every slot option in every position, alone and next to a healthy local route; the first visitor is
 	// gone / leaves during the lookup / is live, then a live one and the other kinds follow
-	for _, a := range opts {
-		for pos := 0; pos < 3; pos++ {
-			for _, other := range []slotOpt{eOpt, {kind: 'L', e: localEnvs[0]}, {kind: 'X'}} {
+	for _, other := range []slotOpt{{kind: 'L', e: localEnvs[0]}, eOpt, {kind: 'X'}} {
+		for _, a := range opts {
+			for pos := 0; pos < 3; pos++ {
 				for _, first := range []string{"g", "t", "l"} {
 					o := [3]slotOpt{other, other, other}
 					o[pos] = a
